@@ -89,7 +89,7 @@ Definition special_text (x : fspecial) : str :=
   match x with
   | XAlarm => [7] | XBackspace => [8] | XForm => [12] | XNewline => [10] | XCarriageReturn => [13]
   | XTabHorizontal => [9] | XTabVertical => [11] | XNull => [0] | XBackslash => [92]
-  | XAscii v => double_tilde [v]
+  | XAscii v => double_tilde [scalar_or_zero v]   (* a surrogate code is printed as '0' *)
   | XClear => []
   end.
 (** what one element contributes to the (decoded) template: literal text with its tildes
@@ -157,6 +157,6 @@ Definition elem_tokens (el : felem) : list ftok :=
   match el with
   | ELit t => map FChar t
   | EField f => match format_tokens (chars (placeholder f)) with Some l => l | None => [] end
-  | ESpecial (XAscii v) => [FChar v]
+  | ESpecial (XAscii v) => [FChar (scalar_or_zero v)]
   | ESpecial x => map FChar (special_text x)
   end.
